@@ -67,12 +67,30 @@ Proof. intros H. unfold join_next_line. now rewrite H. Qed.
 (* insert_line_above / insert_line_below: one new (margin-only) line, every
    other character kept, cursor on the new line after the margin *)
 
-Lemma margin_spec (b : buf) (cm : bool) :
-  exists m : str, (if cm then leading_whitespace_in_current_line (bdoc b) else @nil Z) = m /\
-            forallb is_space m = true /\ (cm = false -> m = []).
+Lemma mem_Z_app c a b : mem_Z c (a ++ b) = mem_Z c a || mem_Z c b.
+Proof. induction a as [|x a IH]; cbn [app mem_Z]; [reflexivity|]. rewrite IH. now rewrite orb_assoc. Qed.
+
+Lemma current_line_no_nl b : Inv b -> mem_Z NL (current_line (bdoc b)) = false.
 Proof.
-  destruct cm.
-  - eexists; split; [reflexivity|]. split; [|discriminate].
+  intros H. destruct (current_line_split b H) as (pre & line & post & S).
+  destruct S as [_ Hl _ _ Hc Hb Ha].
+  unfold current_line. rewrite Hb, Ha, firstn_skipn. exact Hl.
+Qed.
+
+Lemma margin_no_nl b : Inv b -> mem_Z NL (leading_whitespace_in_current_line (bdoc b)) = false.
+Proof.
+  intros H. destruct (leading_whitespace_spec (bdoc b)) as [rest [E _]].
+  pose proof (current_line_no_nl b H) as Hn. rewrite E, mem_Z_app in Hn.
+  now apply orb_false_elim in Hn.
+Qed.
+
+Lemma margin_spec (b : buf) (cm : bool) :
+  Inv b ->
+  exists m : str, (if cm then leading_whitespace_in_current_line (bdoc b) else @nil Z) = m /\
+            forallb is_space m = true /\ mem_Z NL m = false /\ (cm = false -> m = []).
+Proof.
+  intros H. destruct cm.
+  - eexists; split; [reflexivity|]. split; [|split; [now apply margin_no_nl|discriminate]].
     destruct (leading_whitespace_spec (bdoc b)) as [_ [_ Hs]]. exact Hs.
   - exists []. repeat split; reflexivity.
 Qed.
@@ -81,18 +99,18 @@ Lemma insert_line_above_spec b cm pre line post :
   Inv b -> line_split b pre line post ->
   exists m,
     insert_line_above b cm = Ok (mkbuf (pre ++ m ++ NL :: line ++ post) (len pre + len m)) [] /\
-    forallb is_space m = true /\ (cm = false -> m = []).
+    forallb is_space m = true /\ mem_Z NL m = false /\ (cm = false -> m = []).
 Proof.
-  intros [H0 H1] S. destruct S as [Ht Hl _ _ Hc Hb _].
+  intros HI S. pose proof HI as [H0 H1]. destruct S as [Ht Hl _ _ Hc Hb _].
   pose proof (len_nonneg pre). pose proof (len_nonneg line). pose proof (len_nonneg post).
   assert (Hlt : len (btext b) = len pre + len line + len post) by (rewrite Ht, !len_app; lia).
   unfold insert_line_above, get_start_of_line_position. rewrite Hb, len_firstn.
   replace (bcur b + - Z.min (Z.of_nat (Z.to_nat (bcur b - len pre))) (len line)) with (len pre) by lia.
   rewrite set_cursor_in_range by lia.
   set (ins := if cm then _ ++ [NL] else [NL]).
-  destruct (margin_spec b cm) as [m [Hm [Hsp Hcm]]].
+  destruct (margin_spec b cm HI) as [m [Hm [Hsp [Hnl Hcm]]]].
   assert (Hins : ins = m ++ [NL]) by (unfold ins; destruct cm; rewrite <- Hm; reflexivity).
-  exists m. split; [|split; assumption].
+  exists m. split; [|repeat split; assumption].
   set (b1 := mkbuf (btext b) (len pre)).
   assert (HI1 : Inv b1) by (unfold Inv, b1; cbn [btext bcur]; lia).
   rewrite (insert_text_spec b1 ins true HI1). cbn [bind]. unfold b1; cbn [btext bcur].
@@ -110,9 +128,9 @@ Lemma insert_line_below_spec b cm pre line post :
   exists m,
     insert_line_below b cm =
     Ok (mkbuf (pre ++ line ++ NL :: m ++ post) (len pre + len line + 1 + len m)) [] /\
-    forallb is_space m = true /\ (cm = false -> m = []).
+    forallb is_space m = true /\ mem_Z NL m = false /\ (cm = false -> m = []).
 Proof.
-  intros [H0 H1] S. destruct S as [Ht Hl _ _ Hc _ Ha].
+  intros HI S. pose proof HI as [H0 H1]. destruct S as [Ht Hl _ _ Hc _ Ha].
   pose proof (len_nonneg pre). pose proof (len_nonneg line). pose proof (len_nonneg post).
   assert (Hlt : len (btext b) = len pre + len line + len post) by (rewrite Ht, !len_app; lia).
   unfold insert_line_below, get_end_of_line_position. rewrite Ha, len_skipn.
@@ -120,9 +138,9 @@ Proof.
     with (len pre + len line) by lia.
   rewrite set_cursor_in_range by lia.
   set (ins := if cm then NL :: _ else [NL]).
-  destruct (margin_spec b cm) as [m [Hm [Hsp Hcm]]].
+  destruct (margin_spec b cm HI) as [m [Hm [Hsp [Hnl Hcm]]]].
   assert (Hins : ins = NL :: m) by (unfold ins; destruct cm; rewrite <- Hm; reflexivity).
-  exists m. split; [|split; assumption].
+  exists m. split; [|repeat split; assumption].
   set (b1 := mkbuf (btext b) (len pre + len line)).
   assert (HI1 : Inv b1) by (unfold Inv, b1; cbn [btext bcur]; lia).
   rewrite (insert_text_spec b1 ins true HI1). unfold b1; cbn [btext bcur].
